@@ -26,6 +26,7 @@ def dispatch (prop : String) (ins outs : List String) : Verdict :=
   | "C09" => C09.run ins outs
   | "C15" => C15.run ins outs
   | "C04" => C04.run ins outs
+  | "C12" => C12.run ins outs
   | _ => .bad ("unknown property " ++ prop)
 
 partial def loop (h : IO.FS.Stream) (out : IO.FS.Stream) (n : Nat) : IO Unit := do
